@@ -62,6 +62,38 @@ def run_group(cmd, cwd, env, timeout):
         return (out or '') + '\nTIMEOUT after %ds' % timeout
 
 
+def rewrites_selftest(repo, key):
+    """thorough tier, once per tree: the source-level rewrites R8/R9/R12 are written into a scratch copy of the repository and the
+    repository's own tests are run on it with the repository's toolchain (the rewritten text is valid Rust and behaves alike)."""
+    import engine, gen
+    cpath = os.path.join(engine.CACHE, key + '-rewrites.json')
+    if os.path.exists(cpath):
+        return json.load(open(cpath))
+    d = tempfile.mkdtemp(prefix='pushr_rw_')
+    out = dict(ok=False, stats={}, note='')
+    try:
+        shutil.copytree(os.path.join(repo, 'src'), os.path.join(d, 'src'))
+        for f in ('Cargo.toml', 'Cargo.lock'):
+            src = os.path.join(repo, f)
+            if not os.path.exists(src): src = os.path.join('/repo', f)
+            shutil.copy(src, os.path.join(d, f))
+        srcs = gen.load_sources(repo); st = {}
+        o = gen.r9_desugar_iterators(srcs, st)
+        o, _done = gen.r8_inline_new_helpers(o, engine.KNOWN_UNITS(), st)
+        n = 0
+        for m in srcs:
+            if srcs[m] != o[m]:
+                open(os.path.join(d, 'src', 'push', m + '.rs'), 'w').write(o[m]); n += 1
+        log = run_group(['cargo', 'test', '--offline'], d, dict(os.environ, CARGO_NET_OFFLINE='true', CARGO_TARGET_DIR=os.path.join(d, 'target')), 1200)
+        m = re.search(r'test result: (\w+)\. (\d+) passed; (\d+) failed', log)
+        out = dict(ok=bool(m and m.group(1) == 'ok' and int(m.group(3)) == 0 and int(m.group(2)) > 0), rewritten_modules=n, stats=st,
+                   result=m.group(0) if m else log[-300:], what='cargo test --offline on a scratch copy whose modules carry the R8/R9/R12 source-level rewrites')
+    finally:
+        shutil.rmtree(d, ignore_errors=True)
+    json.dump(out, open(cpath, 'w'))
+    return out
+
+
 def make_scratch(repo):
     d = tempfile.mkdtemp(prefix='pushr_kani_')
     shutil.copytree(os.path.join(repo, 'src'), os.path.join(d, 'src'))
